@@ -95,6 +95,12 @@ def tree_case(rep, drv, rng, th):
 	if any(own[l] and l not in sinks for l in labels):
 		rep.count('tree:internal-stage-with-own-demand')
 	extIn = {l: (rng.choice([0, 0, 1, 2]) if l in sources else None) for l in labels}
+	# an outside supplier may also quote an inbound time to a stage that has suppliers of its own (its own stream: the main one is unchanged)
+	rng_in = random.Random(7919 * sum(labels) + n)
+	for l in labels:
+		if l not in sources and rng_in.random() < .35:
+			extIn[l] = rng_in.choice([1, 2, 4])
+			rep.count('tree:external-inbound-cst-at-non-source-stage')
 	extOut = {l: (rng.choice([0, 0, 1, 3]) if l in sinks else None) for l in labels}
 	case = {'kind': kind, 'labels': labels, 'edges': edges, 'T': T, 'h': h, 'z': z, 'sd': sd, 'extIn': extIn, 'extOut': extOut}
 	rep.case('gsm_tree', case, nontrivial=True); rep.count('tree:' + kind); rep.count('tree:n=%d' % n)
